@@ -2023,7 +2023,7 @@ class Result:
         """
 
         result = self.copy()
-        if l or p: result = result._group_p(l,p)
+        if l or p: result = result._group_p(l or 'learner_id', p or 'environment_id')
         if n     : result = result._global_n(n)
         return result
 
